@@ -65,6 +65,10 @@ def gen_auth_case(rng: random.Random, tier: str, backends=('dict',)) -> dict:
            'tls': rng.random() < 0.5, 'bad_command_limit': 0,
            'invalid_user_sleep': 0.3}
     proto = 'imap' if rng.random() < 0.7 else 'sieve'
+    if proto == 'sieve':
+        # the maildir backend has a single unnamed script per user, the
+        # marker-script reveal needs the dict backend's named scripts
+        cfg['backend'] = 'dict'
     peer = rng.choice(['1.2.3.4', '127.0.0.1'])
     attempts = [gen_attempt(rng) for _ in range(rng.randint(1, 6))]
     steps = []
@@ -236,12 +240,18 @@ def run_imap(case: dict, trace: bool) -> dict:
                                 'STARTTLS from a remote peer' % what)
                     break
             elif want_ok:
-                if cond != 'OK':
+                acting_as_other = ident != att['user']
+                if cond != 'OK' and acting_as_other:
+                    # refusing an admin's request to act as someone else is
+                    # not unsound (the maildir backend does)
+                    ctx.stat('admin_authzid_refused')
+                elif cond != 'OK':
                     ctx.violate('C09', 'rejected', '%s: valid credentials '
                                 'answered %s %r' % (what, cond,
                                                     c.result.text))
                     break
-                state['auth'] = ident
+                else:
+                    state['auth'] = ident
             elif cond == 'OK':
                 ctx.violate('C09', 'accepted', '%s: answered OK' % what)
                 break
@@ -409,6 +419,7 @@ def run_sieve(case: dict, trace: bool) -> dict:
 
 class C09(Profile):
     id = 'C09'
+    BACKENDS = ('dict', 'dict', 'dict', 'maildir')
     level = 'exploration'
     quick_budget_s = 40.0
     thorough_budget_s = 400.0
@@ -435,7 +446,9 @@ class C09(Profile):
     components = dict(C01.components)
 
     def gen(self, rng, tier):
-        return gen_auth_case(rng, tier)
+        from .common import backends, finish_cfg
+        return finish_cfg(gen_auth_case(
+            rng, tier, backends=backends(self.BACKENDS)), rng)
 
     def run(self, case, trace=False):
         if case.get('proto') == 'sieve':
